@@ -17,14 +17,17 @@
   deletion the object is untouched and the cursor walks the parsed records).
   `walk_delete_skipping_opt` is the statement for the public `next()` walk over an additional section
   that holds an OPT record (Lemmas/DeleteWalkSkip.lean: the walker sees the other records; OPT stays).
+  `walk_delete_parsed_skipping_opt` is the same walk started on a freshly parsed (possibly compressed)
+  packet (Lemmas/DeleteWalkSkipFresh.lean: until the first deletion the walker sees the parsed records
+  other than OPT; the first deletion decompresses; then as on a plain object).
   Not covered by a theorem: the question section (KF1: by design the result is rejected by the
-  parser), and the OPT-skipping walk started on a still-flagged object whose additional section holds
-  OPT (both covered by the exhaustive correspondence walks).
+  parser; covered by the exhaustive correspondence walks).
 -/
 import DnsModel.Lemmas.DeleteWalk
 import DnsModel.Lemmas.FirstTouch
 import DnsModel.Lemmas.DeleteWalkFresh
 import DnsModel.Lemmas.DeleteWalkSkip
+import DnsModel.Lemmas.DeleteWalkSkipFresh
 import DnsModel.Theorems.C02
 import DnsModel.Theorems.C05
 namespace Dns.C11
@@ -255,6 +258,78 @@ theorem walk_delete_skipping_opt {pp : PP} (P : PlainObj pp) (choose : Nat → B
   rcases absWalk_yields_survivors choose _ _ _ _ _ hr a ha with h0 | h1
   · simp at h0
   · exact h1
+
+/-- an accepted packet has at most one OPT record: the canonical piece after the OPT piece is not one -/
+theorem opt_once {p : Bytes} {v : View} (h : parse p = .ok v) (L : C03.Layout p) (o : C05.Output p L) :
+    ∀ j (hj : j < (o.pieces .additional).length), isOptPiece (o.pieces .additional)[j] = true →
+      ∀ (hj1 : j + 1 < (o.pieces .additional).length), isOptPiece (o.pieces .additional)[j + 1] = false := by
+  obtain ⟨v2, h2⟩ := C02.wf_accepted _ (C05.output_layout h o).1
+  obtain ⟨P, _, _, e3, _⟩ := plainObj_of_output h o h2 (PP.ofView p v)
+  intro j hj hopt hj1
+  have e : P.R = o.pieces .additional := e3
+  have := (others_visible P (by rw [e]; exact split_at (o.pieces .additional) j hj) hopt).2
+  apply this
+  have e' : ((o.pieces .additional).drop (j + 1))[0]'(by simp; omega) = (o.pieces .additional)[j + 1] := by simp
+  rw [← e']
+  exact List.getElem_mem _
+
+/-- **C11 for the public `next()` walk over the additional section of a freshly parsed packet**
+(compressed or not, with or without an OPT record) and any stream of choices: the run terminates
+without error or panic; there is a run `r` of the abstract machine over the numbered canonical forms
+of the records other than OPT with the same keep/delete decisions at every yield; if nothing was
+deleted the object is untouched; otherwise the result is a plain object whose visible additional
+records are exactly what the machine left (survivors in original order, deleted ones gone for good,
+every survivor yielded), the OPT piece is where it was, the other sections hold the canonical forms
+of their records, question and other header fields are those of the input -/
+theorem walk_delete_parsed_skipping_opt {p : Bytes} {v : View} (h : parse p = .ok v) (L : C03.Layout p) (o : C05.Output p L)
+    (choose : Nat → Bool) (c : Cursor) (hc : c.sec = .additional) (hv : c.offset = none) :
+    ∃ (pp' : PP) (log : List (Bytes × Bool)) (r : List (Bytes × Nat) × List ((Bytes × Nat) × Bool)),
+      absWalk choose (fuelFor (vis (o.pieces .additional)).length) 0 (numbered (vis (o.pieces .additional))) 0 = some r ∧
+      delWalk nextSkippingOpt choose (fuelFor (vis (o.pieces .additional)).length) 0 (PP.ofView p v) c = .ok (pp', log) ∧
+      log.map (·.2) = r.2.map (·.2) ∧
+      r.1.Sublist (numbered (vis (o.pieces .additional))) ∧
+      (((r.2.filter (·.2)).map (·.1)) ++ r.1).Perm (numbered (vis (o.pieces .additional))) ∧
+      (∀ l1 l2 a, r.2 = l1 ++ (a, true) :: l2 → a ∉ l2.map (·.1) ∧ a ∉ r.1) ∧
+      (∀ a ∈ r.1, (a, false) ∈ r.2) ∧
+      ((pp' = PP.ofView p v ∧ r.1 = numbered (vis (o.pieces .additional))) ∨
+       (∃ P' : PlainObj pp', vis (P'.lst .additional) = r.1.map (·.1) ∧
+          (P'.lst .additional).filter isOptPiece = (o.pieces .additional).filter isOptPiece ∧
+          (∀ s, s ≠ .additional → P'.lst s = o.pieces s) ∧
+          o.qc = (encLabels P'.qls ++ [0]) ++ P'.q4 ∧
+          (∀ i, (i + 1 < 10 ∨ 11 < i) → get16 P'.hdr i = get16 (p.take 12) i))) := by
+  have hlen : (numbered (vis (o.pieces .additional))).length = (vis (o.pieces .additional)).length := by simp [numbered]
+  have hterm := absWalk_terminates choose (fuelFor (vis (o.pieces .additional)).length) 0 (numbered (vis (o.pieces .additional))) 0
+    (by rw [hlen]; unfold fuelFor; omega)
+  obtain ⟨r, hr⟩ := Option.isSome_iff_exists.1 hterm
+  have hmap := absWalk_map Prod.fst choose (fuelFor (vis (o.pieces .additional)).length) 0 (numbered (vis (o.pieces .additional))) 0
+  have hfst : (numbered (vis (o.pieces .additional))).map Prod.fst = vis (o.pieces .additional) := by simp [numbered]
+  rw [hfst, hr] at hmap
+  simp only [Option.map_some] at hmap
+  have h0 : (vis ((o.pieces .additional).take 0)).length = 0 := by simp [vis]
+  rw [← h0] at hmap
+  obtain ⟨pp', log, hw, hl, hres⟩ := delWalkSkip_fresh_refines (fresh_ofView h) L o (opt_once h L o) choose _ 0 c 0
+    ⟨hc, Or.inl ⟨hv, rfl⟩⟩ _ hmap
+  obtain ⟨s1, _⟩ := absWalk_sublist choose _ _ _ _ _ hr
+  have hperm := absWalk_perm choose _ _ _ _ _ hr
+  refine ⟨pp', log, r, hr, hw, by rw [hl]; simp, s1, hperm,
+    absWalk_deleted_gone choose _ _ _ _ _ (numbered_nodup _) hr, ?_, ?_⟩
+  · intro a ha
+    rcases absWalk_yields_survivors choose _ _ _ _ _ hr a ha with h0 | h1
+    · simp at h0
+    · exact h1
+  · rcases hres with ⟨h1, h2, h3⟩ | ⟨P', f1, f2, f3, f4, f5⟩
+    · left
+      refine ⟨h1, ?_⟩
+      have hnone : (r.2.filter (·.2)) = [] := by
+        apply List.filter_eq_nil_iff.2
+        intro e he
+        have : ((e.1.1, e.2) : Bytes × Bool) ∈ r.2.map (fun e => (e.1.1, e.2)) := List.mem_map.2 ⟨e, he, rfl⟩
+        have := h3 _ this
+        simpa using this
+      rw [hnone] at hperm
+      simp only [List.map_nil, List.nil_append] at hperm
+      exact s1.eq_of_length_le (by rw [hperm.length_eq]; exact Nat.le_refl _)
+    · exact Or.inr ⟨P', f1, f2, f3, f4, f5⟩
 
 /-- the hypotheses are satisfiable and the machine does what one expects on a small case:
 three records, the first and the third chosen -/
